@@ -331,6 +331,14 @@ fn cancel_scenario(id_kind: u8, how: u8, big: bool, policy: u8) -> Verdict {
             let r = world::until_idle(sock.send(to(target, i))).await;
             obs2.borrow_mut().push(format!("send#{} to {} -> {}", i, if i == 4 { "B" } else { "A" }, r.as_ref().map(|r| e3::ok_or_err(r)).unwrap_or_else(|| "pending".into())));
         }
+        // A, whose connection merely did not accept data for a while, now sends two messages of its own: they must
+        // be received (an abandoned send is not a disconnect: A's read side must still be served)
+        a.send(&rc::encode_message(&[b"from-A-1".to_vec()]));
+        a.send(&rc::encode_message(&[b"from-A-2".to_vec(), vec![]]));
+        for k in 0..2 {
+            let r = world::until_idle(sock.recv()).await;
+            obs2.borrow_mut().push(format!("recv#{} -> {}", k, r.as_ref().map(e3::show_result).unwrap_or_else(|| "pending".into())));
+        }
         world::set_cond("done");
         world::wait_cond("never").await;
         drop(sock);
@@ -356,6 +364,10 @@ fn cancel_scenario(id_kind: u8, how: u8, big: bool, policy: u8) -> Verdict {
                 }
             }
             let abandoned = o.iter().any(|l| l.ends_with("abandoned"));
+            let inbound: Vec<&String> = o.iter().filter(|l| l.starts_with("recv#")).collect();
+            if inbound.len() != 2 || !inbound[0].contains(&rc::hex(b"from-A-1")) || !inbound[1].contains(&rc::hex(b"from-A-2")) {
+                v.violate("abandoned-send/messages-of-the-peer-no-longer-received", format!("{}: afterwards A sent two messages of its own; recv gave {:?}", what, inbound));
+            }
             for (name, c, want) in [("A", a, vec![0usize, 3, 5]), ("B", b, vec![2usize, 4])] {
                 let t = c.tap();
                 let d = rc::decode_stream(&t, true);
